@@ -35,7 +35,9 @@ inductive Ev where
   | newtheorem (name : Name) (shared : Option Name) (within : Option Name) (starred : Bool)
   | beginList
   | endList
-  /-- `\item` / `\item[label]`; `tag` only names the output entry (`item` in enumerate, `bullet` elsewhere) -/
+  /-- `\item` / `\item[label]`; `hasTerm` = the optional argument is *given*, also when it is empty (`\item[]`,
+      `value is not None` in `List.item.postArgument`); `tag` only names the output entry (`item` in enumerate,
+      `bullet` elsewhere) -/
   | item (tag : String) (hasTerm : Bool)
   | eqnBegin
   /-- the end of an `eqnarray` row: `\\`, `\\*` or `\\[len]` (the star and the length do not matter for numbering) -/
